@@ -574,10 +574,18 @@ theorem literals_dec (n : Int) (h1 : I64_MIN ≤ n) (h2 : n ≤ I64_MAX) :
     have := convertToInt_natDigits n.natAbs (by rw [habs]; exact h2)
     rw [this, habs]
 
-/-- `0x` / `0X` prefix with lower- or upper-case digits: read back exactly -/
-theorem literals_hex (upperPrefix upperDigits : Bool) (n : Nat) (h : (n : Int) ≤ I64_MAX) :
+/-- `0x` / `0X` prefix with lower- or upper-case digits, over the whole 64-bit range: values up
+to `i64::MAX` are read back exactly, values with bit 63 set (`0x8000000000000000` …
+`0xFFFFFFFFFFFFFFFF`) as the 64-bit pattern (`u64 as i64`). -/
+theorem literals_hex (upperPrefix upperDigits : Bool) (n : Nat) (h : n ≤ U64_MAX) :
+    convertToInt (hexNat upperPrefix upperDigits n) = .ok (wrapI64 n) := by
+  cases upperPrefix <;> simp [hexNat, convertToInt, hexToI64_natDigits upperDigits n h]
+
+theorem literals_hex_small (upperPrefix upperDigits : Bool) (n : Nat) (h : (n : Int) ≤ I64_MAX) :
     convertToInt (hexNat upperPrefix upperDigits n) = .ok (n : Int) := by
-  cases upperPrefix <;> simp [hexNat, convertToInt, parseI64_hex upperDigits n h, ofOpt]
+  have hu : n ≤ U64_MAX := by simp only [I64_MAX, U64_MAX] at *; omega
+  rw [literals_hex upperPrefix upperDigits n hu]
+  simp [wrapI64, h]
 
 /-- unsigned fields (`PollingTime`, `Bit`, `LSB`, `MSB`, version numbers): decimal form -/
 theorem literals_uint_dec (n : Nat) (h : n ≤ U64_MAX) :
@@ -716,7 +724,9 @@ example : AllElems [exInteger.render, exStruct.render] := by simp [AllElems, Int
 /-- literal ranges are inhabited at the boundaries -/
 example : convertToInt (decInt I64_MIN) = .ok I64_MIN := literals_dec _ (by decide) (by decide)
 example : convertToInt (hexNat true true 0x7fffffffffffffff) = .ok 0x7fffffffffffffff :=
-  literals_hex true true _ (by decide)
+  literals_hex_small true true _ (by decide)
+example : convertToInt (hexNat false true 0xFFFFFFFFFFFFFFFF) = .ok (-1) :=
+  literals_hex false true _ (by decide)
 example : convertToUint (hexNat false false U64_MAX) = .ok U64_MAX :=
   literals_uint_hex false false _ (by decide)
 example : decInt (-42) = cs!"-42" := by
